@@ -831,12 +831,18 @@ func filterAndScoreFuzzyMatch(items []protocol.CompletionItem, query string, fuz
 		return filterByPrefix(items, query)
 	}
 
-	queryForSegment := strings.TrimSuffix(query, ":")
+	// A trailing colon of the query asks for the children of a segment: it is matched by the
+	// colon that follows the segment, so the last segment of a name does not qualify.
+	queryForSegment, wantsChildren := strings.CutSuffix(query, ":")
 
 	var result []scoredItem
 	for _, item := range items {
-		if strings.Contains(item.Label, ":") {
-			if score := fuzzyMatchScoreBySegments(item.Label, queryForSegment); score > 0 {
+		if lastColon := strings.LastIndex(item.Label, ":"); lastColon != -1 {
+			segments := item.Label
+			if wantsChildren {
+				segments = item.Label[:lastColon]
+			}
+			if score := fuzzyMatchScoreBySegments(segments, queryForSegment); score > 0 {
 				result = append(result, scoredItem{item: item, score: score})
 				continue
 			}
